@@ -391,7 +391,7 @@ def choose(state, avail, rng, pol):
             }[op]
             args = [rng.choice([i for i, p in enumerate(pending) if p])]
     elif op == 'burn_card':
-        if dm == 'unknown' and rng.random() < 0.7:
+        if dm in ('unknown', 'mixedunknown') and rng.random() < 0.7:
             args = ['??']
         elif dm == 'explicit' and rng.random() < 0.7:
             cards = tuple(s.get_dealable_cards(1))
@@ -410,6 +410,17 @@ def choose(state, avail, rng, pol):
         cards = _planned(s, plan['board'], k)
         if len(cards) == k:
             args = [''.join(cards)]
+    elif op == 'deal_hole' and dm == 'mixedunknown':
+        # hand-history style: the down cards of one or two seats were never
+        # recorded (??), everybody else's cards are dealt from the deck
+        i = s.hole_dealee_index
+        if i in pol.get('unknown_seats', ()):
+            st = list(s.hole_dealing_statuses[i])
+            k = 0
+            while k < len(st) and not st[k]:
+                k += 1
+            if k:
+                args = ['??' * k, i]
     elif op == 'deal_hole':
         if dm == 'unknown':
             i = s.hole_dealee_index
